@@ -1527,10 +1527,10 @@ fn bind_typed_parameter_list(
             .map(|param| {
                 let typ = if let Some(pt) = param.param_type() {
                     param_type_to_type(&pt, false, context)
-                } else if param.old_typed_param().is_some() {
-                    Type::ToDo
                 } else {
-                    panic!("You have found a bug in oq3_parser")
+                    // `creg`/`qreg` parameters and array reference parameters. The latter are
+                    // parsed as `ARRAY_TYPE`, which `param_type()` does not return.
+                    Type::ToDo
                 };
                 let namestr = param.name().unwrap().string();
                 context.new_binding(namestr.as_ref(), &typ, &param)
